@@ -27,6 +27,10 @@ func c07Line(host, file string, seq, length int) string {
 	pad := ""
 	if length > len(head)+9 {
 		pad = strings.Repeat("p", length-len(head)-9)
+		if seq%5 == 0 && len(pad) > 8 {
+			// the field delimiter of the record format inside the line's own text
+			pad = "p|p||" + pad[5:]
+		}
 	}
 	body := head + pad
 	return fmt.Sprintf("%s#%08x", body, crc32.ChecksumIEEE([]byte(body)))
@@ -188,7 +192,9 @@ func c07Body(r *vlib.Run) int {
 	sizes := []int{2, 3, 5, 8}
 	fleets := make([]*fleet, len(sizes))
 	for i, sz := range sizes {
-		fl, err := startFleet(r, fmt.Sprintf("c07f%d", i), sz, map[string]interface{}{"MaxConcurrentCats": 8, "MaxConcurrentTails": 50, "MaxConnections": 50}, nil, "error")
+		// two of the fleets have fully qualified host names
+		domain := []string{"", ".lab.example.org", "", ".prod.dc1.example.com"}[i%4]
+		fl, err := startFleetDomain(r, fmt.Sprintf("c07f%d", i), sz, map[string]interface{}{"MaxConcurrentCats": 8, "MaxConcurrentTails": 50, "MaxConnections": 50}, nil, "error", domain)
 		if err != nil {
 			r.Inconclusive("fleet-start")
 			continue
@@ -524,6 +530,10 @@ func c07CatRun(r *vlib.Run, i int, fl *fleet, rng *rand.Rand) {
 	}
 	bin := "dcat"
 	args := []string{"--noColor", "--files", filesArg}
+	coloured := i%4 == 1
+	if coloured {
+		args = []string{"--files", filesArg} // the default: colours on; judged after removing the SGR sequences
+	}
 	if mode == "grep" {
 		bin = "dgrep"
 		args = append(args, "--regex", "#[0-9]*[05]#") // lines whose number ends in 0 or 5
@@ -554,6 +564,10 @@ func c07CatRun(r *vlib.Run, i int, fl *fleet, rng *rand.Rand) {
 	if res.TimedOut {
 		r.Inconclusive("client-watchdog")
 		return
+	}
+	if coloured {
+		out = []byte(stripSGR(string(out)))
+		r.Count("runs_with_colours_on", 1)
 	}
 	ck := c07CheckOutput(out, !glob, false)
 	key := ""
